@@ -21,7 +21,8 @@ E_NULL_AAD == 2007   E_CIPH_LEN == 2008   E_AUTH_LEN == 2009   E_IV_LEN == 2010 
 E_TAG_LEN == 2012    E_AAD_LEN == 2013    E_SRC_OFFSET == 2014 E_CHAIN_ORDER == 2015
 E_CIPH_MODE == 2016  E_HASH_ALGO == 2017  E_NULL_AUTH_KEY == 2018   E_NULL_SGL_CTX == 2019
 E_NULL_NEXT_IV == 2020   E_OPAD == 2038   E_IPAD == 2039   E_XCBC_K1 == 2040   E_XCBC_K2 == 2041
-E_XCBC_K3 == 2042   E_CIPH_DIR == 2043   E_GHASH_INIT == 2044
+E_XCBC_K3 == 2042   E_CIPH_DIR == 2043   E_GHASH_INIT == 2044   E_PON_PLI == 2021
+E_EINVAL == 22   E_EFAULT == 14          \* two rules answer with plain errno values
 
 R(f, c, e) == [field |-> f, cls |-> c, err |-> e]
 
@@ -33,7 +34,7 @@ HasIV == Modes \ {CNULL, CCUSTOM, ECB, SM4_ECB, PON, GCM_SGL, CHAPOLY_SGL}
 \* which key pointer the direction uses
 UsesDecKeys(s) == s.dir = DEC /\ s.mode \in {CBC, CBCS, ECB, DOCSIS_SEC, DES, DOCSIS_DES, GCM, SM4_GCM,
                                             SM4_ECB, SM4_CBC, CFB, DES3}
-UsesEncKeys(s) == s.mode # CNULL /\ (~UsesDecKeys(s) \/ s.mode = DOCSIS_SEC)
+UsesEncKeys(s) == s.mode \notin {CNULL, CCUSTOM} /\ (~UsesDecKeys(s) \/ s.mode = DOCSIS_SEC)
 NonZeroLen == {CBC, CBCS, ECB, CNTR, CNTR_BITLEN, DES, DOCSIS_DES, DES3, ZUC_EEA3, SNOW3G_UEA2, KASUMI_UEA1,
                CHACHA20, SM4_ECB, SM4_CBC, SM4_CNTR}
 Block16 == {CBC, CBCS, ECB, SM4_ECB, SM4_CBC, CFB}
@@ -65,6 +66,19 @@ CipherRules(s) ==
     \cup (IF s.mode \in {GCM} THEN {R("iv_len", "zero", E_IV_LEN)} ELSE {})
     \cup (IF s.mode = CBCS THEN {R("next_iv", "null", E_NULL_NEXT_IV)} ELSE {})
     \cup (IF s.mode # CNULL THEN {R("cipher_dir", "bad", E_CIPH_DIR)} ELSE {})
+    \cup (IF s.mode = PON
+          THEN \* XGEM frame: destination = source + cipher offset; ciphered range a multiple of 4 and at most 2^14;
+               \* with a non-empty range AES-128-CTR needs key (16 bytes), 16-byte IV; PLI (payload length in the header)
+               \* must not exceed the ciphered range
+               {R("src", "null", E_NULL_SRC), R("dst", "null", E_NULL_DST), R("pon_dst", "elsewhere", E_EINVAL),
+                R("cipher_len", "unaligned4", E_CIPH_LEN), R("cipher_len", "overpon", E_CIPH_LEN),
+                R("key_len", "pon32", E_KEY_LEN), R("iv_len", "bad", E_IV_LEN), R("iv", "null", E_NULL_IV),
+                R("enc_keys", "null", E_NULL_KEY), R("pon_pli", "plus1", E_PON_PLI), R("pon_pli", "plus4", E_PON_PLI)}
+          ELSE {})
+    \cup (IF s.mode \in {GCM, SM4_GCM, CHAPOLY, CBCS} THEN {R("cipher_len", "huge", E_CIPH_LEN)} ELSE {})   \* beyond the mode's own maximum
+    \cup (IF s.mode = DES3
+          THEN {R("des3_k1", "null", E_NULL_KEY), R("des3_k2", "null", E_NULL_KEY), R("des3_k3", "null", E_NULL_KEY)} ELSE {})
+    \cup (IF s.mode = CCUSTOM THEN {R("cipher_func", "null", E_EFAULT)} ELSE {})   \* the only rule for a caller-supplied cipher
     \cup {R("cipher_mode", "unsupported", E_CIPH_MODE)}
 
 \* ---- hash side ----
@@ -88,6 +102,7 @@ HashRules(s) ==
     \cup (IF s.hash \in FixedTag THEN {R("tag_len", "other", E_TAG_LEN)} ELSE {})
     \cup (IF s.hash = AES_CCM THEN {R("tag_len", "odd", E_TAG_LEN)} ELSE {})
     \cup (IF s.hash \in NeedsHSrc /\ s.mode = CNULL THEN {R("src", "null", E_NULL_SRC)} ELSE {})
+    \cup (IF s.hash \in Crcs \cup Gmacs \cup {GHASH} /\ s.mode = CNULL THEN {R("src", "null", E_NULL_SRC)} ELSE {})
     \cup (IF s.hash \in HZeroLenBad THEN {R("hash_len", "zero", E_AUTH_LEN)} ELSE {})
     \cup (IF s.hash \in HMax16 /\ s.hash # AES_CCM /\ s.hash # DOCSIS_CRC32
           THEN {R("hash_len", "over16", E_AUTH_LEN)} ELSE {})
@@ -113,16 +128,45 @@ HashRules(s) ==
     \cup (IF s.hash \in {AES_GMAC, AES_CCM, H_CHAPOLY, H_SNOW_V_AEAD, H_SM4_GCM}
           THEN {R("aad", "null", E_NULL_AAD)} ELSE {})
     \cup (IF s.hash = AES_CCM
-          THEN {R("aad_len", "over", E_AAD_LEN), R("ccm_hash_len", "differs", E_CIPH_LEN),
+          THEN {R("aad_len", "over", E_AAD_LEN), R("ccm_hash_len", "differs", E_CIPH_LEN), R("ccm_hash_len", "over16", E_AUTH_LEN),
                 R("ccm_hash_off", "differs", E_SRC_OFFSET)}
           ELSE {})
-    \cup (IF s.hash = DOCSIS_CRC32 THEN {R("chain_order", "flipped", E_CHAIN_ORDER)} ELSE {})
+    \cup (IF s.hash = DOCSIS_CRC32
+          THEN \* Ethernet PDU over DOCSIS (both ranges non-empty): ciphered range + 8 <= hashed range, cipher offset >= hash
+               \* offset + 12, hashed range within the 16-bit multi-buffer limit
+               {R("chain_order", "flipped", E_CHAIN_ORDER), R("docsis_crc", "cipher_too_long", E_CIPH_LEN),
+                R("docsis_crc", "offset_below", E_SRC_OFFSET), R("docsis_crc", "hash_over16", E_AUTH_LEN)}
+          ELSE {})
+    \cup (IF s.hash = PON_CRC_BIP
+          THEN {R("hash_len", "unaligned4", E_AUTH_LEN), R("hash_len", "lt8", E_AUTH_LEN), R("hash_len", "overpon", E_AUTH_LEN),
+                R("tag_len", "other", E_TAG_LEN)}
+          ELSE {})
+    \cup (IF s.hash = HCUSTOM THEN {R("hash_func", "null", E_EFAULT)} ELSE {})
     \cup {R("hash_alg", "unsupported", E_HASH_ALGO)}
 
 Rules(s) == CipherRules(s) \cup HashRules(s)
 
+\* ---- scatter-gather suites: GCM_SGL + GCM_SGL hash, CHACHA20_POLY1305_SGL + its hash ----
+\* a job carries sgl_state INIT / UPDATE / COMPLETE (one segment in src/dst) or ALL (segment array); the baseline of
+\* UPDATE and COMPLETE is preceded by an accepted INIT on the same context
+E_NULL_SGL == 2019   E_SGL_STATE == 2053
+SglModes == {GCM_SGL, CHAPOLY_SGL}
+SglStates == {"init", "update", "complete", "all"}
+SglRules(mode, st) ==
+    {R("hash_alg", "foreign", E_HASH_ALGO), R("keys", "null", E_NULL_KEY), R("key_len", "bad", E_KEY_LEN),
+     R("iv", "null", E_NULL_IV), R("iv_len", IF mode = GCM_SGL THEN "zero" ELSE "bad", E_IV_LEN),
+     R("sgl_ctx", "null", E_NULL_SGL), R("sgl_state", "bad", E_SGL_STATE)}
+    \cup (IF st \in {"update", "complete"} \/ (st = "init" /\ mode = CHAPOLY_SGL)
+          THEN {R("src", "null", E_NULL_SRC), R("dst", "null", E_NULL_DST), R("cipher_len", "huge", E_CIPH_LEN)} ELSE {})
+    \cup (IF st = "all"
+          THEN {R("seg_in", "null", E_NULL_SRC), R("seg_out", "null", E_NULL_DST), R("seg_len", "huge", E_CIPH_LEN)} ELSE {})
+    \cup (IF st \in {"complete", "all"} \/ mode = CHAPOLY_SGL
+          THEN {R("tag", "null", E_NULL_AUTH), R("tag_len", IF mode = GCM_SGL THEN "zero" ELSE "other", E_TAG_LEN)} ELSE {})
+    \cup (IF mode = GCM_SGL /\ st \in {"complete", "all"} THEN {R("tag_len", "over", E_TAG_LEN)} ELSE {})
+    \cup (IF st \in {"init", "all"} \/ mode = CHAPOLY_SGL THEN {R("aad", "null", E_NULL_AAD)} ELSE {})
+
 \* the error codes the catalogue may mention are documented ones
-DocumentedCodes == 2001 .. 2053
+DocumentedCodes == (2001 .. 2053) \cup {E_EINVAL, E_EFAULT}
 RulesWellFormed(S) ==
     \A s \in S : \A r \in Rules(s) : r.err \in DocumentedCodes
 =============================================================================
